@@ -93,6 +93,10 @@ impl img::DiskImage for Img {
                 let chs_list = skew::fat_blocking(deblocked_ts_list,self.heads)?;
                 let mut src_offset = 0;
                 let padded = super::quantize_block(dat, chs_list.len()*sec_size);
+                // every sector of the block has to be there before any of them is written
+                for [cyl,head,lsec] in &chs_list {
+                    self.read_sector(*cyl,*head,*lsec)?;
+                }
                 for [cyl,head,lsec] in chs_list {
                     match self.write_sector(cyl,head,lsec,&padded[src_offset..src_offset+sec_size].to_vec()) {
                         Ok(_) => src_offset += sec_size,
